@@ -84,10 +84,9 @@ theorem c02_translated_conditions :
   ⟨tie_curtails, tie_seqResets, tie_remaining⟩
 
 theorem c02_facts :
-    Facts.curtailCond = "leftRecCtx.Get(parserIndex)>ctx.Reader().Remaining(pos)+1" ∧
-    Facts.seqResetCond = "node.ReaderPos()>pos" ∧
-    Facts.readerRemaining = "return r.file.len-(int(pos)-r.file.offset)" :=
-  ⟨rfl, rfl, rfl⟩
+    Facts.seqResetBody = "{leftRecCtx=data.EmptyIntMapmergeCurtailingParsers=false}" ∧
+    Facts.memoizeCallOrder = "ResultCache().Get;data.NewIntSet;p.Parse;leftRecCtx.Inc;leftRecCtx.Filter;ResultCache().Save" :=
+  ⟨rfl, rfl⟩
 
 /-
   **C02 termination — the statement as first written; proved (per call, not with a uniform F) as `c02_terminates` in Props/C02T.lean:**
